@@ -92,7 +92,7 @@ func namedTypes(prog *ssa.Program) map[string]types.Type {
 func rawQual(p *types.Package) string { return strings.TrimPrefix(p.Path(), modPrefix) }
 
 var (
-	baselineFns       map[string]bool // nil: no baseline loaded
+	baselineFns       map[string]bool     // nil: no baseline loaded
 	baselineFeatures  map[string][]string // baseline function -> feature set (callees, fields)
 	baselineTemplates = map[string]baseFn{}
 	baselinePath      string
